@@ -973,9 +973,10 @@ class TcpFlow:
         self.rtask = {"app": None, "tgt": None}
         self.atask = None
         self.preface = b""
-        self.last_t = None              # monotonic time of this flow's latest logged event (Lapse detection)
         self.lapsed = False
-        self._ended_before = {"app": None, "tgt": None}
+        self.t_dir = {"up": 0.0, "down": 0.0}        # monotonic time of the latest write / arrival per direction
+        self.t_closed = {"app": 0.0, "tgt": 0.0}
+        self.t_end = {"app": None, "tgt": None}      # when that side observed its end
         self.throttle = {"app": 0.0, "tgt": 0.0}   # seconds slept by the reader of that side after each recv (slow reader)
         self.hold = None                # (arrived: asyncio.Event, release: asyncio.Event) given by run_batch for ("hold",)
         self.small_rcvbuf = any(s[0] == "throttle" for s in steps)
@@ -986,18 +987,31 @@ class TcpFlow:
     # -- logging with coalescing of consecutive arrivals of the same flow
     def _ev(self, ev, **kw):
         kw["f"] = self.f
-        # Lapse (RelayAbs): one side has closed and nothing at all was written, read or observed on this flow for LAPSE_S
-        # seconds (half of the relay's close grace): from here on a half-closed side may lose the rest of its answer
-        # ... and the silence is the outer parties' own: the side opposite to the closer had already OBSERVED that end when
-        # the silent period began (it was its turn to act).  Silence before the end was passed on is the relay's doing.
+        # Lapse (RelayAbs): one side X has closed and the direction TOWARDS X (the answer) has carried nothing for LAPSE_S
+        # seconds (half of the relay's close grace) - and that silence is the outer parties' own: either the other side had
+        # observed X's end when it began (it was its turn to answer), or it was still being handed X's data during it (a
+        # slow reader: the end could not have reached it yet).  Silence while the end is not passed on although nothing is
+        # in the way is the relay's doing and excuses nothing.
         now = time.monotonic()
-        told = self._ended_before
-        if (self.last_t is not None and not self.lapsed and now - self.last_t >= LAPSE_S
-                and ((self.closed["app"] and told["tgt"]) or (self.closed["tgt"] and told["app"]))):
-            self.lapsed = True
-            self.log.add("Lapse", f=self.f, gap=round(now - self.last_t, 2))
-        self.last_t = now
-        self._ended_before = dict(self.ended)
+        if ev in ("AppClose", "TgtClose"):
+            self.t_closed["app" if ev == "AppClose" else "tgt"] = now
+        if not self.lapsed:
+            for closer, other, ans, req in (("app", "tgt", "down", "up"), ("tgt", "app", "up", "down")):
+                if not self.closed[closer] or not self.t_closed[closer]:
+                    continue
+                since = max(self.t_dir[ans], self.t_closed[closer])
+                told = self.t_end[other] is not None and now - max(since, self.t_end[other]) >= LAPSE_S
+                busy = now - since >= LAPSE_S and now - self.t_dir[req] < LAPSE_S and self.t_end[other] is None
+                if told or busy:
+                    self.lapsed = True
+                    self.log.add("Lapse", f=self.f, gap=round(now - since, 2), why="told" if told else "still reading")
+                    break
+        if ev in ("AppWrote", "TgtGot"):
+            self.t_dir["up"] = now
+        elif ev in ("TgtWrote", "AppGot"):
+            self.t_dir["down"] = now
+        elif ev in ("AppEnd", "TgtEnd"):
+            self.t_end["app" if ev == "AppEnd" else "tgt"] = now
         if ev in ("TgtGot", "AppGot"):
             for e in reversed(self.log.events):
                 if e.get("f") == self.f:
